@@ -398,6 +398,15 @@ def translate(repo):
     if [ast.unparse(s) for s in _nodoc(binit.body)] != ['self._cache = weakref.WeakKeyDictionary()']:
         _fail('cache.py', binit, '_TransformedFnCache.__init__ shape')
     has = _find_method(base, 'has', 'cache.py')
+    # the lock-free probe must be read-only: no path through __getitem__ (which creates buckets), no store
+    for n in ast.walk(has):
+        writes = (isinstance(n, ast.Subscript) and (_is_name(n.value, 'self') or isinstance(n.ctx, (ast.Store, ast.Del)))) \
+            or (isinstance(n, ast.Attribute) and n.attr in ('__getitem__', '__setitem__', 'setdefault', 'pop', 'update', 'clear')) \
+            or isinstance(n, (ast.Delete, ast.AugAssign)) \
+            or (isinstance(n, ast.Assign) and any(not isinstance(t, ast.Name) for t in n.targets))
+        if writes:
+            _fail('cache.py', n, 'has() is not read-only (it can write the cache: %s); PyToPy.transform_function calls it '
+                  'outside the lock, where the machine (IIfHas) assumes an atomic read' % ast.unparse(n)[:60])
     want_has = ['key = self._get_key(entity)', 'parent = self._cache.get(key, None)',
                 'if parent is None:\n    return False', 'return subkey in parent']
     if [x.arg for x in has.args.args] != ['self', 'entity', 'subkey'] or \
@@ -455,6 +464,8 @@ def translate(repo):
            '  [%s].' % '; '.join(prog),
            '(* CodeObjectCache._get_key *)',
            'Definition cache_key_src : key_src := %s.' % key_src,
+           '(* _TransformedFnCache.has only reads (no __getitem__, no store): checked by the translator *)',
+           'Definition cache_has_read_only : bool := true.',
            '(* api.PyToPy.get_caching_key *)',
            'Definition cache_subkey_src : subkey_src := %s.' % sub_src]
     return '\n'.join(out) + '\n'
